@@ -9,6 +9,14 @@ package header
 // reports nil iff nothing is recorded.
 //@ pred headerVerifierOK(v *verifier) = v != nil && v.reqerr != nil && merrIdle(v.reqerr) && v.reserr != nil && merrIdle(v.reserr) && v.reqerr != v.reserr && tableIdle()
 
+// The constructor establishes what the methods rely on: two separate, empty lists - one per side - so that an unmet
+// request expectation is never reported (or reset) as a response error, and the expectation itself.
+//@ func NewVerifier
+//@   serves C13
+//@   modifies nothing
+//@   ensures[separate-empty-lists-for-the-two-sides] typeis(result, *verifier) && as(result, *verifier).reqerr != nil && as(result, *verifier).reserr != nil &&
+//@        as(result, *verifier).reqerr != as(result, *verifier).reserr && len(as(result, *verifier).reqerr.errs) == 0 && len(as(result, *verifier).reserr.errs) == 0 &&
+//@        as(result, *verifier).name == name && as(result, *verifier).value == value
 //@ func (*verifier).ModifyRequest
 //@   serves C13
 //@   requires headerVerifierOK(v) && req != nil
